@@ -41,7 +41,7 @@ man = {
         "enable": "go build -tags \"badger verif\" (drivers in /verif/harness import /repo through a replace directive)",
         "baseline_off_cmd": "sh tools/baseline_off.sh",
         "source_commits": hooks_commits,
-        "add_only": True,
+        "add_only": False,
     },
     "engines": [
         {"name": "coq", "path": "/verif/coq", "serves_properties": sorted(claimed), "kind_free_text": "Coq 8.16.1 development: Gen (regenerated from /repo), Base, Model, Proofs, Props"},
